@@ -38,6 +38,14 @@ Theorem C02_modrm32_in_bits16_domain : forallb (fun '(b, i) => falls_to_32 b i) 
 Proof. exact falls_to_32_all. Qed.
 Print Assumptions C02_modrm32_in_bits16.
 
+(* and in 32-bit mode an operand written with BX/BP/SI/DI yields the bytes of the 16-bit table (behind 67h): with
+   C02_modrm16_exact this is the effective-address theorem for 16-bit addressing in BITS 32 *)
+Theorem C02_modrm16_in_bits32 : forall b i sc d rb, is16reg b || is16reg i = true ->
+  calc_modrm (mk_mem b i sc d) M32 rb = calc_modrm (mk_mem b i sc d) M16 rb.
+Proof. exact modrm16_mode_indep. Qed.
+Theorem C02_modrm16_in_bits32_domain : forallb (fun x => match x with (b, i, _, _) => is16reg b || is16reg i end) shapes16 = true.
+Proof. exact shapes16_are_16. Qed.
+
 Example C02_bp_needs_disp : exists x, calc_modrm (mk_mem "BP" "" 0 0) M16 0 = Some x /\ modrm_bytes x = [70; 0].
 Proof. eexists. split; reflexivity. Qed.
 
